@@ -30,6 +30,11 @@ def _actx(res, root):
     return [r[5] for r in res.trace if r[K] == "actx" and r[4] == root]
 
 
+def _later_observers(res):
+    """What the observers registered after the (possibly raising) ones saw."""
+    return [(r[K], r[4], r[5]) for r in res.trace if r[K] in ("sub2", "emit2")]
+
+
 def _op_outcomes(res):
     return [(r[4], r[5], r[6] if not (isinstance(r[6], tuple) and r[6] and r[6][0] == "snapshot") else "snapshot") for r in res.trace if r[K] == "op-ret"]
 
@@ -78,6 +83,7 @@ def run_c07(sc):
     base_acts = _acts(base, root)
     base_actx = _actx(base, root)
     base_ops = _op_outcomes(base)
+    base_later = _later_observers(base)
     tested = {"action": 0, "fn": 0, "plugin": 0, "subscriber": 0, "listener": 0, "guard": 0}
     doubles = 0
     for plan in plans:
@@ -108,6 +114,11 @@ def run_c07(sc):
             if _cfg_seq(res, root) != base_cfg or _acts(res, root) != base_acts:
                 vios.append(Violation("C07", "observer-fault-changed-behaviour", sig,
                                       f"fault at call {plan} in {fired[0][1:]} changed the run (configurations or actions differ from the fault-free run)"))
+                break
+            if _later_observers(res) != base_later:
+                vios.append(Violation("C07", "observer-fault-starved-other-observers", sig,
+                                      f"fault at call {plan} in {fired[0][1:]}: observers registered after the raising one saw "
+                                      f"{len(_later_observers(res))} notifications instead of {len(base_later)}"))
                 break
             continue
         if kind == "guard":
